@@ -195,15 +195,21 @@ class Progressor:
         self.log: list = []  # (iteration, objective, best, evaluations)
         self._inner = None
         kind = self.policy["kind"]
-        if kind == "time_limit":
+        if kind in ("time_limit", "timed"):
+            # the shipped helpers read the clock when they are constructed: that read must be simulated too
             helpers = importlib.import_module("solvor.utils.helpers")
-            self._inner = helpers.default_progress(
-                "sim", interval=int(self.policy.get("interval", 100)), time_limit=self.policy["limit"]
-            )
-        elif kind == "timed":
-            helpers = importlib.import_module("solvor.utils.helpers")
-            lim = self.policy["limit"]
-            self._inner = helpers.timed_progress(lambda p, elapsed: elapsed > lim)
+            saved = helpers.perf_counter
+            helpers.perf_counter = clock.read
+            try:
+                if kind == "time_limit":
+                    self._inner = helpers.default_progress(
+                        "sim", interval=int(self.policy.get("interval", 100)), time_limit=self.policy["limit"]
+                    )
+                else:
+                    lim = self.policy["limit"]
+                    self._inner = helpers.timed_progress(lambda p, elapsed: elapsed > lim)
+            finally:
+                helpers.perf_counter = saved
 
     def __call__(self, progress):
         self.ticks += 1
@@ -229,3 +235,36 @@ class Progressor:
                 self.cancelled_at = self.ticks
             return r
         raise ValueError(kind)
+
+
+# ----------------------------------------------------------------------------------------------- tripwires
+
+
+class NondeterminismLeak(BaseException):
+    """A solvor module reached a real clock or OS entropy outside a simulator-owned seam: harness error."""
+
+
+class _TripRandom(random.Random):
+    def __init__(self, seed=None):
+        if seed is None:
+            raise NondeterminismLeak("Random() seeded from OS entropy outside install_rng")
+        super().__init__(seed)
+
+
+def _trip_clock():
+    raise NondeterminismLeak("real perf_counter read outside install_clock")
+
+
+RNG_USERS = ["anneal", "tabu", "lns", "genetic", "differential_evolution", "particle_swarm", "bayesian", "job_shop", "vrp", "milp",
+             "utils.helpers"]
+
+
+def arm_tripwires():
+    """Called once per worker: any un-simulated entropy/clock read inside solvor becomes a loud harness error
+    instead of a silent source of run-to-run variation."""
+    for name in RNG_USERS:
+        m = importlib.import_module(f"solvor.{name}")
+        if getattr(m, "Random", None) is random.Random:
+            m.Random = _TripRandom
+    helpers = importlib.import_module("solvor.utils.helpers")
+    helpers.perf_counter = _trip_clock
